@@ -69,6 +69,26 @@ def free_undetectable(phys):
     return True
 
 
+def dump_after_switch(first_text, second_text, fname="p.f90", args="--max_line_length 120"):
+    """Open a document holding first_text, then replace the whole buffer by second_text with ONE ranged multi-line
+    change (what an editor sends for "paste over everything"); return the dump of the resulting index."""
+    d = adapter.mkws({fname: first_text.encode()})
+    try:
+        s, c = adapter.mkserver(d, args)
+        adapter.did_open(s, c, d, fname)
+        fo = s.workspace.get(os.path.join(d, fname))
+        old = list(fo.contents_split)
+        rng = {"start": {"line": 0, "character": 0}, "end": {"line": len(old) - 1, "character": len(old[-1])}}
+        adapter.notify(s, c, "textDocument/didChange", {"textDocument": {"uri": adapter.uri(d, fname)}, "contentChanges": [{"range": rng, "text": second_text}]})
+        syms = adapter.result_of(adapter.request(s, c, "textDocument/documentSymbol", {"textDocument": {"uri": adapter.uri(d, fname)}})) or []
+        fo = s.workspace.get(os.path.join(d, fname))
+        return {"symbols": sorted((y["name"].lower(), y["kind"], (y.get("containerName") or "").lower(),
+                                   y["location"]["range"]["start"]["line"], y["location"]["range"]["end"]["line"]) for y in syms),
+                "fixed": bool(fo.fixed)}
+    finally:
+        adapter.rmws(d)
+
+
 def check(job):
     prog_state, lay, fixed = job
     stmts = fscopes.render(prog_state["prog"])
@@ -111,6 +131,14 @@ def check(job):
                     {"expected": want_d, "observed": got_d}))
     if new["fixed"] != fixed:
         bad.append(({"form:misdetected", "expected:" + ("fixed" if fixed else "free")}, {"fixed_flag": new["fixed"]}))
+    if fixed:
+        # the same twin reached by editing: a free-form buffer replaced by the fixed-form text (and back)
+        sw = dump_after_switch("\n".join(stmts) + "\n", text)
+        if sw["fixed"] is not True or sw["symbols"] != sorted(new["symbols"]):
+            bad.append(({"form:staleAfterEdit", "switch:freeToFixed"}, {"fixed_flag": sw["fixed"], "expected_symbols": sorted(new["symbols"]), "observed_symbols": sw["symbols"]}))
+        sw2 = dump_after_switch(text, "\n".join(stmts) + "\n")
+        if (not free_undetectable(stmts)) and (sw2["fixed"] is not False or sw2["symbols"] != sorted(base["symbols"])):
+            bad.append(({"form:staleAfterEdit", "switch:fixedToFree"}, {"fixed_flag": sw2["fixed"], "expected_symbols": sorted(base["symbols"]), "observed_symbols": sw2["symbols"]}))
     # spec cross-check: the original dump must be what the spec expects (ties to C04/C07)
     tags_ops = {"op:" + o["k"] for o in lay["ops"]}
     if not fixed and free_undetectable(phys):
